@@ -67,9 +67,10 @@ Env(a) == /\ Len(hist) < MaxDepth
 \* once more (which has to find everything up to date)
 Apply(c) ==
   LET r == Run(repos, index, c) IN
-  /\ index' = r.index /\ UNCHANGED repos
-  /\ (r.index # index => Len(hist) < MaxDepth)
-  /\ hist' = IF r.index # index THEN Append(hist, CmdStep(c, index, r)) ELSE hist
+  /\ UNCHANGED repos
+  /\ IF r.index # index /\ Len(hist) < MaxDepth
+     THEN index' = r.index /\ hist' = Append(hist, CmdStep(c, index, r))
+     ELSE UNCHANGED <<index, hist>>       \* no change, or a final command at the depth bound
   /\ (Emit = "C34" =>
         PrintT(<<"SCRIPT", ToJson([steps |-> Append(hist, CmdStep(c, index, r)) \o
             (IF c.op = "sync" THEN <<CmdStep(c, r.index, Run(repos, r.index, c))>> ELSE <<>>)])>>))
